@@ -31,6 +31,7 @@ type Profile struct {
 	WideNames    bool // add three names drawn per history from a family of 2000 (spreads over every shard of every count)
 	LeaseFocus   bool
 	Disc         int // weight of session ends (default 4)
+	InjectFile   int // percentage of restarts that start from a file with extra entries
 }
 
 var DefaultProfile = Profile{Ops: 40, Restart: 3, Gc: 3, Ipc: 0, Blocking: 10, Invalid: 15, Foreign: 30}
@@ -58,6 +59,7 @@ type Gen struct {
 	sizeOf   map[string]*int32
 	reqInfo  map[int]holdInfo
 	wide     []string // this history's names from the wide family
+	ninj     int
 	reqLt    map[int]*int32
 }
 
@@ -172,8 +174,10 @@ func (g *Gen) keyFor() (string, string, string) {
 		return h.name[:1], h.name[1:] + k, sid
 	case x < 92: // and the other direction: name extended by a prefix of the key
 		return h.name + "K", strings.TrimPrefix(k, "K"), sid
-	case x < 96:
+	case x < 95:
 		return h.name, k + "x", sid
+	case x < 98: // the key in another letter case (keys are uuids: hexadecimal digits)
+		return h.name, "UP:" + k, sid
 	default:
 		return h.name, "", sid
 	}
@@ -266,6 +270,28 @@ func (g *Gen) Next() impl.Op {
 		return impl.Op{Kind: "disconnect", Sid: s}
 	case "restart":
 		g.live = nil
+		if g.p.InjectFile > 0 && g.cfg.File && len(g.grants) > 0 && r.Chance(g.p.InjectFile) {
+			// a crash image that lists more than was acknowledged: a second entry for a lock some session
+			// holds (over capacity when the lock is full, or with another size), followed by an entry for a
+			// fresh name, both appended to that session's list
+			gi := g.grants[len(g.grants)-1-r.Intn(min(len(g.grants), 3))]
+			size := int32(1)
+			if p := g.sizeOf[gi.name]; p != nil && *p > 0 {
+				size = *p
+			}
+			if r.Chance(15) {
+				size++
+			}
+			g.ninj++
+			ex := []impl.ExtraHold{{Name: gi.name, Key: fmt.Sprintf("xk%d", g.ninj), Size: size}}
+			if r.Chance(70) {
+				ex = append(ex, impl.ExtraHold{Name: fmt.Sprintf("inj%d", g.ninj), Key: fmt.Sprintf("xy%d", g.ninj), Size: 1})
+			}
+			if r.Chance(30) {
+				ex = append(ex, impl.ExtraHold{Name: gi.name, Key: fmt.Sprintf("xz%d", g.ninj), Size: size})
+			}
+			return impl.Op{Kind: "restartwith", Sid: gi.sid, Extra: ex}
+		}
 		return impl.Op{Kind: "restart"}
 	case "gc":
 		return impl.Op{Kind: "gc", D: int64(common.Pick(r, []time.Duration{0, 1, time.Second, 2 * time.Second, 5 * time.Minute}))}
@@ -326,7 +352,7 @@ func (g *Gen) Observe(o impl.Op, resp impl.Resp, now int64) {
 		if resp.Ok {
 			g.addDeadline(g.now + int64(o.T)*int64(time.Second))
 		}
-	case "restart":
+	case "restart", "restartwith":
 		g.addDeadline(g.now + int64(g.cfg.Dlt))
 		g.pending = nil
 	}
